@@ -90,6 +90,12 @@ def last_outcome(evs, label, before):
     return out
 
 
+def is_late(lb):
+    """the path observed that the deadline is reached: `now > deadline`, `now >= deadline` (Timeout AT the deadline is not before
+    it), or the negations of `now < deadline` / `now <= deadline`"""
+    return has(lb, 'late', 'T') or has(lb, 'late_ge', 'T') or has(lb, 'before_deadline', 'F') or has(lb, 'before_deadline_le', 'F')
+
+
 def pop_outcome(evs, before):
     """what the latest dequeue attempt before event `before` returned: the branch on ITS result, wherever on the path that
     branch is taken (`let v = pop_front(); let next = next_send()...; match (v, next)` tests the result later)"""
@@ -394,7 +400,7 @@ def r8(ctx):
             regs = [e for e in evs if e.name == 'PUSH_RECV']
             lb = labels(evs)
             if not regs:
-                if not has(lb, 'late', 'T'):
+                if not is_late(lb):
                     ctx.violate(b.key, p, 'Timeout returned before registering without `Instant::now() > deadline`')
                 # and nothing was available
                 if not (has(lb, 'pop', 'None') and has(lb, 'next_send', 'None')):
